@@ -535,53 +535,10 @@ def removeParam (f : Func) (b : BlockId) (idx : Nat) (p u : Val) : Func :=
                instrs := B.instrs.map (Instr.dropArg b idx) }),
     alias := aliasInsert f.alias p u }
 
-/-! The scan of the Go code resolves the arguments of the predecessors' branches in place while it looks at
-them, and stops at the first predecessor that shows that the parameter is not redundant.  That has no
-influence on the result of the pass, only on which operands are printed resolved after it. -/
-
-/-- the branch instructions that target `b`, in the order of `basicBlock.preds` (by instruction id: blocks in
-the order of `key`, instructions in order), as (block id, index in the block) -/
-def Func.preds (f : Func) (b : BlockId) : List (BlockId × Nat) :=
-  let blks := f.blocks.foldl (fun acc B => insertByKey B acc) []
-  blks.flatMap (fun B =>
-    (B.instrs.zipIdx).filterMap (fun (i, k) =>
-      match i.branch? with
-      | some (t, _) => if t = b then some (B.id, k) else none
-      | none => none))
-where
-  insertByKey (x : Block) : List Block → List Block
-    | [] => [x]
-    | y :: ys => if x.key < y.key then x :: y :: ys else y :: insertByKey x ys
-
-def Func.instrAt (f : Func) (p : BlockId × Nat) : Option Instr :=
-  (f.blockAny p.1).bind (fun B => B.instrs[p.2]?)
-
-/-- the `idx`-th block argument of the branch at `p`, resolved -/
-def Func.predArg (f : Func) (p : BlockId × Nat) (idx : Nat) : Option Val :=
-  ((f.instrAt p).bind (·.branch?)).bind (fun (_, as) => (as[idx]?).map (res f.alias))
-
-/-- how many predecessors the scan of one parameter looks at -/
-def scanLen (f : Func) (phi : Val) (idx : Nat) : List (BlockId × Nat) → Option Val → Nat → Nat
-  | [], _, n => n
-  | p :: ps, u, n =>
-    match f.predArg p idx with
-    | none => scanLen f phi idx ps u (n + 1)
-    | some a =>
-      if a = phi then scanLen f phi idx ps u (n + 1)
-      else match u with
-        | none => scanLen f phi idx ps (some a) (n + 1)
-        | some u' => if u' = a then scanLen f phi idx ps u (n + 1) else n + 1
-
-def Func.mapInstrAt (f : Func) (p : BlockId × Nat) (g : Instr → Instr) : Func :=
-  { f with blocks := f.blocks.map (fun B =>
-      if B.id = p.1 then { B with instrs := (B.instrs.zipIdx).map (fun (i, k) => if k = p.2 then g i else i) }
-      else B) }
-
-/-- `b.resolveArgumentAlias(br)` on the predecessors the scans of the parameters of `B` look at -/
-def resolveScanned (f : Func) (B : Block) : Func :=
-  let ps := f.preds B.id
-  let n := (B.params.zipIdx).foldl (fun acc (pt, idx) => max acc (scanLen f pt.1 idx ps none 0)) 0
-  (ps.take n).foldl (fun g p => g.mapInstrAt p (·.mapOperands (res f.alias))) f
+/-! The scan of the Go code also resolves the arguments of the predecessors' branches in place while it looks
+at them (`b.resolveArgumentAlias(br)`).  That has no influence on the result of the pass, only on which operands
+are stored resolved after it (dead-code elimination resolves all of them at the end); it is not modelled, and the
+harness compares the intermediate stages with every operand resolved on both sides. -/
 
 /-- One visit of a block in the loop of `passRedundantPhiEliminationOpt`: the redundant parameters are found
 first, then removed (from the last to the first, so that the indices stay valid). -/
@@ -592,9 +549,8 @@ def phiVisit (f : Func) (b : BlockId) : Func × Bool :=
     if B.params.isEmpty then (f, false)
     else
       let red := redundantParams f B
-      let f1 := resolveScanned f B
-      if red.isEmpty then (f1, false)
-      else (red.reverse.foldl (fun g r => removeParam g b r.1 r.2.1 r.2.2) f1, true)
+      if red.isEmpty then (f, false)
+      else (red.reverse.foldl (fun g r => removeParam g b r.1 r.2.1 r.2.2) f, true)
 
 def phiRound (f : Func) (order : List BlockId) : Func × Bool :=
   order.foldl (fun (acc : Func × Bool) b =>
